@@ -10,6 +10,7 @@ import (
 	"github.com/jig/lisp/env"
 	"github.com/jig/lisp/lib/call"
 	"github.com/jig/lisp/types"
+	"github.com/jig/lisp/verifhook"
 	"github.com/jig/lisp/zverif/vclk"
 	"github.com/jig/lisp/zverif/vcore"
 
@@ -36,6 +37,10 @@ const c07Prelude = `(do
  (defmacro mm (fn [n] (list 'mm (+ n 1))))
  (def a (atom 0)))`
 
+// cancel: the caller cancels at the instant; deadline: the caller's deadline is the instant;
+// cancel-under-deadline: the caller's context has a deadline far beyond everything and is cancelled at the instant
+var c07Modes = []string{"cancel", "deadline", "cancel-under-deadline"}
+
 func c07Shapes(tier string) []c07shape {
 	sh := []c07shape{
 		{name: "tail-loop", text: "(lp 0)"},
@@ -58,6 +63,16 @@ func c07Shapes(tier string) []c07shape {
 		{name: "future-deref-in-try", text: "(let [f (future (lp 0))] (try (deref f) (catch e (t! :h) 5)))", future: true, depth: 1},
 		{name: "deref-of-future-made-under-another-context", pre: "(def slow (future (wait-forever!)))", text: "(deref slow)", future: true},
 		{name: "deref-of-foreign-future-in-try", pre: "(def slow (future (wait-forever!)))", text: "(try (deref slow) (catch e (t! :h) 5) (finally (t! :fin) 6))", future: true, finally: true, depth: 1},
+		// a second deref of a pending future while another evaluation (a future made under a context
+		// that never ends) is already waiting in a deref of the same future
+		{name: "deref-while-another-deref-waits", pre: "(do (def slow (future (wait-forever!))) (def g (future (deref slow))) (await-derefs! 1))", text: "(deref slow)", future: true},
+		{name: "deref-while-another-deref-waits-in-try", pre: "(do (def slow (future (wait-forever!))) (def g (future (deref slow))) (await-derefs! 1))", text: "(try (deref slow) (catch e (t! :h) 5))", future: true, depth: 1},
+		// terminating programs that wait: a deadline lying beyond their completion must change nothing
+		{name: "terminating-sleep", text: "(do (sleep 50) (t! 1) 7)"},
+		{name: "terminating-future-deref", text: "(deref (future (do (sleep 50) (t! 1) 7)))", future: true},
+		{name: "terminating-future-deref-after-sleep", text: "(let [f (future (do (sleep 40) (t! 1) 7))] (sleep 20) (t! 2) (deref f))", future: true},
+		{name: "terminating-future-throws", text: "(try (deref (future (do (sleep 30) (throw 3)))) (catch e (t! :h) e))", future: true, depth: 1},
+		{name: "terminating-sleep-in-try", text: "(try (do (sleep 50) (t! 1) 7) (catch e (t! :h) 0) (finally (t! :fin)))", finally: true, depth: 1},
 		{name: "future-loop-around-deref", text: "(let [f (future (lp 0))] (try (deref f) (catch e (t! :h) (lp 0)) (finally (t! :fin) (lp 0))))", future: true, finally: true, depth: 1},
 	}
 	// every (try P (catch e Q) (finally R)) with P, Q, R from the atoms; thorough: P may be a nested try
@@ -85,6 +100,16 @@ func c07Shapes(tier string) []c07shape {
 	outerAtoms := []string{"(lp 0)", "5"}
 	if tier == "thorough" {
 		outerAtoms = atoms
+		// every inner try over the atoms, not only the four picked above
+		inner = nil
+		for _, p := range atoms {
+			for _, q := range atoms {
+				inner = append(inner, fmt.Sprintf("(try %s (catch e (t! :h) %s))", p, q))
+				for _, r := range atoms {
+					inner = append(inner, mk(p, q, r))
+				}
+			}
+		}
 	}
 	for _, in := range inner {
 		for _, q := range outerAtoms {
@@ -109,6 +134,7 @@ type c07rig struct {
 	base  types.EnvType
 	trace []string
 	stamp []int64
+	derefWaits int // derefs that reached their wait in this run (observed through the hook)
 }
 
 func (rg *c07rig) setup() {
@@ -119,6 +145,20 @@ func (rg *c07rig) setup() {
 			s.Await(func() bool { return ctx.Err() != nil }, "wait-forever")
 		}
 		return nil, errors.New("context ended")
+	})
+	origAwait := verifhook.AwaitFn
+	verifhook.AwaitFn = func(pred func() bool, why string) {
+		if why == "future.deref" {
+			rg.derefWaits++
+		}
+		origAwait(pred, why)
+	}
+	call.CallOverrideFN(rg.base, "await-derefs!", func(n int) (types.MalType, error) {
+		// parks the caller until n derefs (of other threads) have reached their wait
+		if s := vcore.Active(); s != nil {
+			s.Await(func() bool { return rg.derefWaits >= n }, "await-derefs")
+		}
+		return nil, nil
 	})
 	call.CallOverrideFN(rg.base, "t!", func(c types.MalType) (types.MalType, error) {
 		rg.trace = append(rg.trace, model.FromImpl(c).String())
@@ -141,25 +181,40 @@ func (rg *c07rig) run(sh c07shape, mode string, k int64) c07obs {
 		panic(fmt.Sprint("c07 prelude: ", err, p))
 	}
 	ast := lx.MustRead(sh.text)
-	rg.trace, rg.stamp = nil, nil
+	rg.trace, rg.stamp, rg.derefWaits = nil, nil, 0
 	clk := vclk.Start()
 	defer vclk.Stop()
 	var ctx context.Context
 	root, cancelRoot := clk.NewRoot(context.Background())
 	ctx = root
-	fuel := int64(c07Fuel)
-	if k > 0 {
-		fuel = k + 300
-		switch mode {
-		case "cancel":
-			clk.At(k, cancelRoot)
-		case "deadline":
-			dctx, cancel := clk.WithDeadline(root, vclk.Epoch.Add(time.Duration(k)*vclk.Tick))
-			defer cancel()
-			ctx = dctx
+	var k0 int64 // the tick at which the judged EVAL starts: instants count from there
+	var cancels []context.CancelFunc
+	defer func() {
+		for _, c := range cancels {
+			c()
 		}
+	}()
+	arm := func() {
+		k0 = clk.Ticks()
+		fuel := int64(c07Fuel)
+		if k > 0 {
+			fuel = k + 300
+			switch mode {
+			case "cancel":
+				clk.At(k0+k, cancelRoot)
+			case "cancel-under-deadline":
+				clk.At(k0+k, cancelRoot)
+				dctx, cancel := clk.WithDeadline(root, vclk.Epoch.Add(time.Duration(10000000)*vclk.Tick))
+				cancels = append(cancels, cancel)
+				ctx = dctx
+			case "deadline":
+				dctx, cancel := clk.WithDeadline(root, vclk.Epoch.Add(time.Duration(k0+k)*vclk.Tick))
+				cancels = append(cancels, cancel)
+				ctx = dctx
+			}
+		}
+		clk.At(k0+fuel, cancelRoot) // safety: nothing runs forever
 	}
-	clk.At(fuel, cancelRoot) // safety: nothing runs forever
 	var res types.MalType
 	var err error
 	var pn *lx.Panic
@@ -177,21 +232,26 @@ func (rg *c07rig) run(sh c07shape, mode string, k int64) c07obs {
 					panic(fmt.Sprint("c07 pre-evaluation failed: ", perr, pp))
 				}
 			}
+			arm()
 			res, err, pn = lx.Eval(ctx, ast, scope)
-			obs.ticks = clk.Ticks() // when EVAL returned (the scheduler may let time pass afterwards)
+			obs.ticks = clk.Ticks() - k0 // when EVAL returned (the scheduler may let time pass afterwards)
 		})
 		if s.Deadlock && !mainDone {
 			// (when EVAL has returned, a future body left parked on its own never-ending context is not a hang of EVAL)
 			obs.hang = true
 		}
 	} else {
+		arm()
 		res, err, pn = lx.Eval(ctx, ast, scope)
 	}
 	if !sh.future {
-		obs.ticks = clk.Ticks()
+		obs.ticks = clk.Ticks() - k0
 	}
 	cancelRoot()
 	obs.trace, obs.stamps = rg.trace, rg.stamp
+	for j := range obs.stamps {
+		obs.stamps[j] -= k0
+	}
 	switch {
 	case pn != nil:
 		obs.outcome = "panic:" + panicSig(pn)
@@ -224,17 +284,17 @@ func init() {
 		}
 		fam := &vf.Family{
 			Name:    "shapes-x-instants",
-			Bounds:  "program shapes: tail loop (with and without effects), non-tail recursion, macro self-expansion, sleeps, let/if/do/cond/or around a loop, map/apply/swap! calling a looping closure, terminating programs, future deref (under the thread scheduler), every (try P (catch e Q) (finally R)) and (try P (catch e Q)) over P,Q,R in {loop, sleep, constant, loop with effects}, nested try in body and in handler; x every cancellation instant k = 1..160 (quick) / 1..500 (thorough) (k-th context poll on a virtual clock) x {cancel, deadline}",
+			Bounds:  "program shapes: tail loop (with and without effects), non-tail recursion, macro self-expansion, sleeps, let/if/do/cond/or around a loop, map/apply/swap! calling a looping closure, terminating programs, future deref (under the thread scheduler), every (try P (catch e Q) (finally R)) and (try P (catch e Q)) over P,Q,R in {loop, sleep, constant, loop with effects}, nested try in body and in handler (quick: 4 inner forms x 2 outer atoms; thorough: all 80 inner forms x all 4 outer atoms); x every cancellation instant k = 1..160 (quick) / 1..500 (thorough) (k-th context poll on a virtual clock) x {cancel, deadline, cancel under a far deadline}; for terminating programs also deadlines after their completion (no try: every instant up to twice the completion time; with try: 10x and 40x)",
 			Setup:   func(t string) { tier = t; rg.setup() },
 			Timeout: 30 * time.Second,
-			N:       func(t string) int64 { tier = t; return int64(len(shapesOf())) * 2 },
+			N:       func(t string) int64 { tier = t; return int64(len(shapesOf())) * int64(len(c07Modes)) },
 			Describe: func(i int64) string {
-				sh := shapesOf()[i/2]
-				return []string{"cancel", "deadline"}[i%2] + " at every instant: " + sh.text
+				sh := shapesOf()[i/int64(len(c07Modes))]
+				return c07Modes[i%int64(len(c07Modes))] + " at every instant: " + sh.text
 			},
 			Run: func(i int64, r *vf.Rec) {
-				sh := shapesOf()[i/2]
-				mode := []string{"cancel", "deadline"}[i%2]
+				sh := shapesOf()[i/int64(len(c07Modes))]
+				mode := c07Modes[i%int64(len(c07Modes))]
 				B := int64(8 + 4*sh.depth)
 				ref := rg.run(sh, mode, 0)
 				r.Exec(1)
@@ -328,13 +388,35 @@ func init() {
 						}
 					}
 				}
+				// a deadline lying beyond the program's own completion changes nothing: for programs without
+				// try at every later instant up to twice the completion time, for programs with try (whose
+				// body only gets 80% of the remaining time at each level) at generous instants
+				if refTerminates && ref.ticks < c07Fuel-10 && mode == "deadline" && !strings.HasPrefix(ref.outcome, "timeout") {
+					var later []int64
+					if sh.depth == 0 {
+						for k := K + 1; k <= 2*ref.ticks+10; k++ {
+							later = append(later, k)
+						}
+					}
+					later = append(later, 10*ref.ticks+50, 40*ref.ticks+200)
+					for _, k := range later {
+						o := rg.run(sh, mode, k)
+						r.Exec(1)
+						if o.outcome != ref.outcome || strings.Join(o.trace, " ") != strings.Join(ref.trace, " ") {
+							r.ViolationCase("a deadline beyond the program's completion changes its outcome ("+shapeClass(sh)+")", fmt.Sprintf("deadline at tick %d: %s", k, sh.text),
+								fmt.Sprintf("without deadline: %s after %d polls, trace %v; with it: %s after %d polls, trace %v", ref.outcome, ref.ticks, ref.trace, o.outcome, o.ticks, o.trace))
+							return
+						}
+					}
+					r.Outcome("later deadlines leave the outcome unchanged")
+				}
 				r.Outcome(fmt.Sprintf("worst overshoot in polls: %d", worst))
 				_ = worst
 			},
 		}
 		return &vf.Check{
 			ID: "C07", Level: "model_checking",
-			Rule: "every program shape is run on the real EVAL once uncancelled and then with cancellation / a deadline at every instant k (the k-th context poll; time, timers, sleeps and the 80/20 budget split of try run on a virtual clock through import-rewritten time/context); EVAL must return within B = 8 + 4 x (try depth) polls after the instant, never panic, return a timeout error (or the outcome already determined when the instant falls inside a finally body / after the last poll), produce no effect later than B polls after the instant, and under a deadline let the handler of a timed-out body run; every (shape, mode) case is non-trivial",
+			Rule: "every program shape is run on the real EVAL once uncancelled and then with cancellation / a deadline at every instant k (the k-th context poll; time, timers, sleeps and the 80/20 budget split of try run on a virtual clock through import-rewritten time/context); EVAL must return within B = 8 + 4 x (try depth) polls after the instant, never panic, return a timeout error (or the outcome already determined when the instant falls inside a finally body / after the last poll), produce no effect later than B polls after the instant, under a deadline let the handler of a timed-out body run, and a deadline beyond the program's completion leaves outcome and effects unchanged; every (shape, mode) case is non-trivial",
 			Assumptions: []string{"promptness is counted in evaluator polls, not wall-clock time; a single long Go builtin is outside the model (as the property states)", "future shapes run under the thread scheduler with its default schedule"},
 			Families: []*vf.Family{fam},
 		}
